@@ -3,7 +3,7 @@
 The file written by the real SFNTWriter / TTFont.save is parsed by an independent reader written from the OpenType and WOFF
 specifications inside this harness (no code shared with fontTools); table CONTENTS are symbolic.
 """
-from sx.api import kernel, shim_all, shim, be_uint, eq_mod32, V, ob, observe, eq, conj, disj, neg, assume, symbolic, le, lt, tobytes, ite
+from sx.api import kernel, shim_all, shim, be_uint, eq_mod32, V, ob, observe, eq, conj, disj, neg, assume, symbolic, le, lt, tobytes, ite, is_int
 import fontTools.ttLib.sfnt as SF
 import fontTools.misc.sstruct as SS
 import fontTools.ttLib.ttFont as TF
@@ -125,8 +125,9 @@ def check_sfnt(blob, tables, order_must_be=None):
         whole = spec_checksum(d, 0, len(d))
         ob('whole-file-checksum-0xB1B0AFBA', eq_mod32(whole, 0xB1B0AFBA))
     if order_must_be is not None:
-        phys = [t for _, _, t in spans]
-        ob('physical-order', phys == order_must_be)
+        # zero-length tables occupy no bytes, so their position among the others is not observable
+        phys = [t for a, b, t in spans if b > a]
+        ob('physical-order', phys == [t for t in order_must_be if len(tobytes(tables[t])) > 0])
 
 
 TAGSETS = {
@@ -235,3 +236,274 @@ def checksum_spec(prefix, n):
     ob('equals-spec-sum', eq(got, spec_checksum(d, 0, len(d))))
     padded = full + b'\0' * ((4 - len(d) % 4) % 4) if len(d) % 4 else full
     ob('padding-invariant', eq(SF.calcChecksum(padded), got))
+
+
+# ------------------------------------------------------------------------------------------ WOFF container
+class _CompStub:
+    """environment stub for the zlib compressor, used in BOTH modes: the compressor is an arbitrary function whose output for the
+    k-th call has length len(data)+d[k] (d in the parameters) and arbitrary (symbolic) content.  The WOFF format says: an entry
+    whose compLength equals origLength is stored raw, so whatever the compressor returns, the stored bytes must be readable."""
+
+    def __init__(self, deltas):
+        self.deltas = list(deltas)
+        self.calls = []
+
+    def __call__(self, data, level=None):
+        k = len(self.calls)
+        n = max(1, len(data) + self.deltas[k % len(self.deltas)])
+        out = V.bytes('zout%d' % k, n)
+        self.calls.append((tobytes(data), out))
+        return out
+
+    def inverse(self, raw):
+        for data, out in self.calls:
+            if len(tobytes(out)) == len(raw):
+                return data, eq(tobytes(out), tobytes(raw))
+        return None, False
+
+
+def _blist(x):
+    x = tobytes(x)
+    return list(x.b) if hasattr(x, 'b') else list(x)
+
+
+@kernel('C04', funcs=F_W + ['ttLib/sfnt.py:WOFFDirectoryEntry.encodeData', 'ttLib/sfnt.py:WOFFDirectoryEntry.__init__', 'ttLib/sfnt.py:WOFFFlavorData.__init__'],
+        bounds='SFNTWriter(flavor="woff") driven directly: 1-3 tables (with/without head), lengths from the listed patterns, ALL table bytes '
+               'symbolic, private data of 0..5 symbolic bytes; the compressor is an environment stub returning arbitrary bytes of length '
+               'len(data)+d, d in {-2,-1,0,+1} per table; output parsed by an in-harness WOFF 1.0 spec reader',
+        assumptions=['zlib.compress is modelled as an arbitrary function with output length len(data)+d and arbitrary content (stub in symbolic '
+                     'and replay mode); a compressed stream as long as its input does occur with real zlib on short tables'],
+        outside=['zlib stream validity', 'WOFF metadata block content'],
+        shims=['SFile (BytesIO)', 'struct', 'compress (environment stub)'],
+        quick=[dict(tags='ha', lens=[12, 6], d=[0, 0], priv=0), dict(tags='ha', lens=[12, 5], d=[-1, -2], priv=3), dict(tags='a', lens=[4], d=[1], priv=0),
+               dict(tags='haz', lens=[13, 3, 6], d=[0, -1, 0], priv=5)],
+        thorough=[dict(tags='ha', lens=[h, a], d=[0, d], priv=p) for h in (12, 14) for a in (2, 3, 4, 5, 8) for d in (-2, -1, 0, 1) for p in (0, 1, 4)]
+        + [dict(tags='haz', lens=[13, 3, 6], d=[0, dz, da], priv=5) for dz in (-1, 0, 1) for da in (-1, 0, 1)] + [dict(tags='a', lens=[n], d=[d], priv=0) for n in (1, 4, 5) for d in (-1, 0, 1)])
+def woff_writer_container(tags, lens, d, priv):
+    tagl = TAGSETS[tags]
+    ln = _lens(tagl, lens)
+    tables = {t: V.bytes('t_' + t.strip(), ln[t]) for t in tagl}
+    privdata = V.bytes('priv', priv) if priv else None
+    stub = _CompStub(d)
+    saved = SF.compress
+    SF.compress = stub
+    try:
+        f = new_file()
+        fd = SF.WOFFFlavorData()
+        fd.privData = privdata
+        w = SF.SFNTWriter(f, len(tagl), '\x00\x01\x00\x00', 'woff', fd)
+        for t in tagl:
+            w[t] = tables[t]
+        w.close()
+        blob = f.getvalue()
+    finally:
+        SF.compress = saved
+    observe('file', tobytes(blob))
+    dd = _blist(blob)
+    n = len(tagl)
+    ob('woff-header-size', len(dd) >= 44 + 20 * n)
+    if len(dd) < 44 + 20 * n:
+        return
+    ob('signature', bytes(int(x) for x in dd[0:4]) == b'wOFF')
+    ob('flavor', eq(u32(dd, 4), 0x00010000))
+    ob('length-field', eq(u32(dd, 8), len(dd)))
+    ob('numTables', eq(u16(dd, 12), n))
+    ob('reserved-zero', eq(u16(dd, 14), 0))
+    ob('totalSfntSize', eq(u32(dd, 16), 12 + 16 * n + sum((ln[t] + 3) & ~3 for t in tagl)))
+    ents = []
+    for k in range(n):
+        o = 44 + 20 * k
+        ents.append((tag_at(dd, o), int(u32(dd, o + 4)), int(u32(dd, o + 8)), int(u32(dd, o + 12)), u32(dd, o + 16)))
+    etags = [e[0] for e in ents]
+    ob('directory-sorted-by-tag', etags == sorted(etags) and sorted(etags) == sorted(tagl))
+    spans = []
+    decoded = {}
+    for tag, off, clen, olen, cks in ents:
+        if tag not in tables:
+            continue
+        ob('aligned:' + tag, off % 4 == 0 and off >= 44 + 20 * n)
+        ob('origLength:' + tag, olen == ln[tag])
+        ob('compLength<=origLength:' + tag, clen <= olen)
+        ob('in-file:' + tag, off + clen <= len(dd))
+        if off + clen > len(dd):
+            continue
+        spans.append((off, off + clen, tag))
+        raw = dd[off:off + clen]
+        want = _blist(tables[tag])
+        if clen == olen:
+            # WOFF 1.0: compLength == origLength means the table is stored uncompressed
+            # (head bytes 8..12, checkSumAdjustment, are the writer's own field)
+            ob('stored-raw-content:' + tag, conj([eq(x, y) for i, (x, y) in enumerate(zip(raw, want)) if not (tag == 'head' and 8 <= i < 12)]))
+        else:
+            data, same = stub.inverse(raw)
+            ob('compressed-stream-is-compressor-output:' + tag, same if data is not None else False)
+        ob('origChecksum:' + tag, eq_mod32(cks, spec_checksum(want, 0, len(want), zero_at=8 if tag == 'head' else None)))
+    spans.sort()
+    pos = 44 + 20 * n
+    okk = True
+    pads = []
+    for a, b, tag in spans:
+        if a < pos:
+            okk = False
+        pads += [eq(dd[p], 0) for p in range(pos, a)]
+        pos = b
+    ob('tables-do-not-overlap', okk)
+    end_tables = (pos + 3) & ~3
+    metaoff, metalen, metaorig, privoff, privlen = (int(u32(dd, o)) for o in (24, 28, 32, 36, 40))
+    ob('no-metadata', metaoff == 0 and metalen == 0 and metaorig == 0)
+    if priv:
+        ob('private-block', privoff % 4 == 0 and privoff >= end_tables and privlen == priv and privoff + privlen == len(dd))
+        if privoff + privlen <= len(dd):
+            ob('private-content', conj([eq(x, y) for x, y in zip(dd[privoff:privoff + privlen], _blist(privdata))]))
+            pads += [eq(dd[p], 0) for p in range(pos, privoff)]
+    else:
+        ob('private-block', privoff == 0 and privlen == 0)
+        pads += [eq(dd[p], 0) for p in range(pos, len(dd))]
+        ob('file-length-padded', len(dd) == end_tables)
+    ob('padding-is-zero', conj(pads))
+    if 'head' in tables and ln['head'] >= 12:
+        # reconstruct the sfnt the way a WOFF decoder does (tables in file order, 4-byte padded) and sum it
+        sr, es, rs = spec_search(n)
+        hdr = [0, 1, 0, 0, n >> 8, n & 255, sr >> 8, sr & 255, es >> 8, es & 255, rs >> 8, rs & 255]
+        offs = {}
+        o = 12 + 16 * n
+        for a, b, tag in spans:
+            offs[tag] = o
+            o += (ln[tag] + 3) & ~3
+        direc = []
+        for tag, off, clen, olen, cks in ents:
+            direc += list(tag.encode('latin-1'))
+            direc += [(cks >> s) & 255 for s in (24, 16, 8, 0)]
+            direc += [(offs[tag] >> s) & 255 for s in (24, 16, 8, 0)]
+            direc += [(olen >> s) & 255 for s in (24, 16, 8, 0)]
+        # whole-file sum = sum(directory) + sum over tables of their (padded) sums; every table's sum is its origChecksum field
+        # (obligation origChecksum:<tag> above), head's with the adjustment zeroed plus the stored adjustment itself
+        total = spec_checksum(hdr + direc, 0, len(hdr) + len(direc))
+        for tag, off, clen, olen, cks in ents:
+            total = total + cks
+            if tag == 'head':
+                total = total + u32(dd, off + 8)
+        sfnt = None
+        ob('reconstructed-sfnt-checksum-0xB1B0AFBA', eq_mod32(total, 0xB1B0AFBA))
+
+
+# ------------------------------------------------------------------------------------------ derived fields
+import fontTools.ttLib.tables._g_l_y_f as GL
+import fontTools.ttLib.tables._h_h_e_a as HH
+import fontTools.ttLib.tables._m_a_x_p as MX
+import fontTools.misc.roundTools as RT
+shim_all(GL, HH, MX, RT)
+
+
+def _simple_glyph(name, n, integer):
+    pts = []
+    for i in range(n):
+        if integer:
+            pts.append((V.int('%s_x%d' % (name, i), -3000, 3000), V.int('%s_y%d' % (name, i), -3000, 3000)))
+        else:
+            pts.append((V.real('%s_x%d' % (name, i), -3000, 3000), V.real('%s_y%d' % (name, i), -3000, 3000)))
+    g = GL.Glyph()
+    g.numberOfContours = 1
+    g.coordinates = GL.GlyphCoordinates(pts)
+    g.endPtsOfContours = [n - 1]
+    g.flags = bytearray([1] * n)
+    g.program = None
+    return g, pts
+
+
+def _is_rounded_min(k, vals, sign=1):
+    """k == floor(m + 1/2) where m = min(vals) (sign=1) or max(vals) (sign=-1): written from the definition of otRound"""
+    exists = disj([conj([le(k - 0.5, v), lt(v, k + 0.5)] + [le(sign * v, sign * w) for w in vals]) for v in vals])
+    return conj([is_int(k), exists])
+
+
+@kernel('C04', funcs=['ttLib/tables/_g_l_y_f.py:Glyph.recalcBounds', 'ttLib/tables/_g_l_y_f.py:GlyphCoordinates.calcIntBounds',
+                      'ttLib/tables/_g_l_y_f.py:GlyphCoordinates.calcBounds', 'misc/roundTools.py:otRound'],
+        bounds='simple glyph of n in 1..4 points, every coordinate a symbolic real in [-3000, 3000] (fractional coordinates occur after '
+               'scaling/instancing): xMin/yMin/xMax/yMax == otRound (floor(v+1/2), the OpenType rounding) of the true min/max',
+        shims=['array("d") over reals', 'round/int/math.floor'],
+        quick=[dict(n=1), dict(n=2), dict(n=3)], thorough=[dict(n=n) for n in (1, 2, 3, 4, 5)])
+def glyph_bounds(n):
+    g, pts = _simple_glyph('g', n, False)
+    g.recalcBounds({})
+    observe('bbox', [g.xMin, g.yMin, g.xMax, g.yMax])
+    xs = [p[0] for p in pts]
+    ys = [p[1] for p in pts]
+    ob('xMin', _is_rounded_min(g.xMin, xs, 1))
+    ob('yMin', _is_rounded_min(g.yMin, ys, 1))
+    ob('xMax', _is_rounded_min(g.xMax, xs, -1))
+    ob('yMax', _is_rounded_min(g.yMax, ys, -1))
+
+
+def _minof(k, vals, sign=1):
+    return conj([disj([eq(k, v) for v in vals])] + [le(sign * k, sign * v) for v in vals])
+
+
+@kernel('C04', funcs=['ttLib/tables/_h_h_e_a.py:table__h_h_e_a.recalc', 'ttLib/tables/_m_a_x_p.py:table__m_a_x_p.recalc', 'ttLib/tables/_g_l_y_f.py:Glyph.getMaxpValues'],
+        bounds='font of 2-3 glyphs, each empty (0 contours) or simple per the pattern, with symbolic advance (0..65535), lsb (int16) and glyph '
+               'bounding boxes (int16, xMin<=xMax, yMin<=yMax); point counts from the pattern: hhea.advanceWidthMax/minLeftSideBearing/'
+               'minRightSideBearing/xMaxExtent, head bbox and flags bit 1, maxp.maxPoints/maxContours vs the OpenType definitions '
+               '(glyphs without contours excluded)',
+        shims=['builtin min/max fork on comparisons'],
+        quick=[dict(pat='s'), dict(pat='se'), dict(pat='ss'), dict(pat='ee')], thorough=[dict(pat=p) for p in ('s', 'e', 'se', 'es', 'ss', 'ee', 'sse', 'ses', 'ees')])
+def hhea_maxp_recalc(pat):
+    from fontTools.ttLib import newTable
+    font = TTFont(recalcTimestamp=False)
+    names = ['g%d' % i for i in range(len(pat))]
+    font.setGlyphOrder(names)
+    glyf = newTable('glyf')
+    glyf.glyphs = {}
+    glyf.glyphOrder = names
+    hmtx = newTable('hmtx')
+    hmtx.metrics = {}
+    head = newTable('head')
+    head.flags = V.int('headflags', 0, 0xFFFF)
+    flags0 = head.flags
+    hhea = newTable('hhea')
+    maxp = newTable('maxp')
+    recs = []
+    for i, (nm, kind) in enumerate(zip(names, pat)):
+        aw = V.int('aw%d' % i, 0, 0xFFFF, bv=False)
+        lsb = V.int('lsb%d' % i, -0x8000, 0x7FFF, bv=False)
+        hmtx.metrics[nm] = (aw, lsb)
+        g = GL.Glyph()
+        if kind == 's':
+            npts = 2 + i
+            g.numberOfContours = 1
+            g.endPtsOfContours = [npts - 1]
+            g.flags = bytearray([1] * npts)
+            g.coordinates = GL.GlyphCoordinates([(0, 0)] * npts)
+            g.xMin = V.int('xMin%d' % i, -0x8000, 0x7FFF, bv=False)
+            g.xMax = V.int('xMax%d' % i, -0x8000, 0x7FFF, bv=False)
+            g.yMin = V.int('yMin%d' % i, -0x8000, 0x7FFF, bv=False)
+            g.yMax = V.int('yMax%d' % i, -0x8000, 0x7FFF, bv=False)
+            assume(le(g.xMin, g.xMax))
+            assume(le(g.yMin, g.yMax))
+            recs.append((aw, lsb, g, npts))
+        else:
+            g.numberOfContours = 0
+        glyf.glyphs[nm] = g
+    font['glyf'], font['hmtx'], font['head'], font['hhea'], font['maxp'] = glyf, hmtx, head, hhea, maxp
+    hhea.recalc(font)
+    maxp.recalc(font)
+    observe('hhea', [hhea.advanceWidthMax, hhea.minLeftSideBearing, hhea.minRightSideBearing, hhea.xMaxExtent])
+    observe('head', [head.xMin, head.yMin, head.xMax, head.yMax])
+    ob('advanceWidthMax', _minof(hhea.advanceWidthMax, [m[0] for m in hmtx.metrics.values()], -1))
+    ob('numGlyphs', maxp.numGlyphs == len(pat))
+    if recs:
+        ob('minLeftSideBearing', _minof(hhea.minLeftSideBearing, [r[1] for r in recs], 1))
+        ob('minRightSideBearing', _minof(hhea.minRightSideBearing, [r[0] - r[1] - (r[2].xMax - r[2].xMin) for r in recs], 1))
+        ob('xMaxExtent', _minof(hhea.xMaxExtent, [r[1] + (r[2].xMax - r[2].xMin) for r in recs], -1))
+        ob('head.xMin', _minof(head.xMin, [r[2].xMin for r in recs], 1))
+        ob('head.yMin', _minof(head.yMin, [r[2].yMin for r in recs], 1))
+        ob('head.xMax', _minof(head.xMax, [r[2].xMax for r in recs], -1))
+        ob('head.yMax', _minof(head.yMax, [r[2].yMax for r in recs], -1))
+        ob('maxPoints', maxp.maxPoints == max(r[3] for r in recs) and maxp.maxContours == 1)
+        all_lsb = conj([eq(r[1], r[2].xMin) for r in recs])
+    else:
+        ob('no-outlines-all-zero', conj([eq(v, 0) for v in (hhea.minLeftSideBearing, hhea.minRightSideBearing, hhea.xMaxExtent, head.xMin, head.yMin, head.xMax, head.yMax)]))
+        ob('maxPoints', maxp.maxPoints == 0 and maxp.maxContours == 0)
+        all_lsb = True
+    bit1 = (head.flags & 2) != 0 if not isinstance(head.flags, int) else bool(head.flags & 2)
+    ob('head.flags-bit1-iff-all-lsb-equal-xMin', eq(bit1, all_lsb) if symbolic() else bool(bit1) == bool(all_lsb))
+    ob('head.flags-other-bits-kept', eq(head.flags & ~2, flags0 & ~2))
